@@ -213,7 +213,7 @@ def get_total_blocks(input_file_stem):
     num_blocks : int
         Number of data blocks
     """
-    filenames = glob.glob(f'{input_file_stem}.????.raw')
+    filenames = sorted(glob.glob(f'{input_file_stem}.????.raw'))
     blocks_per_file = get_blocks_per_file(input_file_stem)
     if len(filenames) == 1:
         return blocks_per_file
